@@ -11,6 +11,11 @@ claimed = {
    note="Trusted: the verif hooks hand Execute the Runtime the simulator chose (sync.Pool's real behaviour is a subset); the generator only reaches the syntax it emits (blocks, yield/content, range, if-let, include, exec, try, extends/import); residue is judged through observable behaviour only.",
    tech="deterministic simulation: seeded history generation, simulated object pool (adversarial reuse), injected function/writer faults at every dynamic point, alone-run differential oracle, tape shrinking + replay",
    ref="DESIGN.md §6 C10"),
+ "C13": dict(engine="execsim", cat="fault_enumeration",
+   text="Per generated world one try statement is instrumented (bracketed by mark() calls, followed by state probes printing '.', isset of every variable of the world and of the catch variable, yield content and Execute variables) and placed under tape-chosen enclosing constructs (range with rebound context, if-let, block/yield with content, include with context, imported/extended files). Every dynamic probe call inside its body is made the failing one; the output must be exactly fault-free-prefix + catch rendering (once, with the injected error, per catch form) + fault-free-suffix, the fault-free segment must equal what the twin program without the try wrapper renders, and faults absorbed by an inner try must render what the body renders outside try under the same fault.",
+   note="Trusted: writer offsets recorded by mark() identify the statement's extent; instances dynamically nested inside another try/exec are skipped by the spliced-output oracle; bodies do not assign outer variables (roll-back of those is not demanded by the statement).",
+   tech="deterministic simulation: seeded program generation, fault injection at every dynamic call inside the try body, spliced-output and twin-program oracles, tape shrinking + replay",
+   ref="DESIGN.md §6 C13"),
 }
 
 not_applicable = {
@@ -26,7 +31,7 @@ not_applicable = {
  "C18": "single-threaded, fault-free API-vs-syntax equivalence: stateful input generation, not simulation (DESIGN.md §7)",
  "C20": "pure function of the AST (DESIGN.md §7)",
 }
-pending = {k: 'claimed in DESIGN.md §2; its check is still under construction, so nothing is asserted yet' for k in ['C02','C05','C11','C12','C13','C15','C16','C19']}  # id -> reason, for claimed-in-design properties whose check is not built yet
+pending = {k: 'claimed in DESIGN.md §2; its check is still under construction, so nothing is asserted yet' for k in ['C02','C05','C11','C12','C15','C16','C19']}  # id -> reason, for claimed-in-design properties whose check is not built yet
 
 m = {
  "version": 1,
